@@ -159,7 +159,12 @@ def transformations(rng, case):
 
 def run_case(tier, seed, i):
     rng = gen.rng_for(ID, tier, seed, i)
-    if rng.random() < 0.5:
+    r0 = rng.random()
+    if r0 < 0.25:
+        # exact ties of target rate between modalities: the tie-break must not depend on row order or index labels
+        case = gen.single_feature_case(rng, exact=True, ftype=gen.pick(rng, ["cat", "cat", "ord", "quant"]), with_dev=False)
+        case.config["min_freq"] = gen.pick(rng, [0.05, 0.1])
+    elif r0 < 0.6:
         case = gen.single_feature_case(rng, exact=False, hostile_names=False, with_dev=rng.random() < 0.25,
                                        quant_flavour=gen.pick(rng, [None, "jitter"]))
     else:
